@@ -233,6 +233,7 @@ structure ImplOut where
   deliveries : List (Nat × String) := []     -- (conn, message token)
   digest : List (List String) := []          -- digest tokens split at ':'
   hasDigest : Bool := false
+  told : List String := []                   -- "remove" requests the fake backend received ("B=told(room,sN)")
   deriving Inhabited
 
 def parseImpl (toks : List String) : ImplOut :=
@@ -241,6 +242,7 @@ def parseImpl (toks : List String) : ImplOut :=
       let body := dropS 2 t
       { o with hasDigest := true,
                digest := if body == "" then [] else (splitOnChar body ';').map (fun e => splitOnChar e ':') }
+    else if hasPrefix "B=" t then { o with told := o.told ++ [t] }
     else if hasPrefix "c" t then
       match splitOnChar t '=' with
       | c :: rest =>
@@ -414,15 +416,46 @@ def judgeViews (views : List (Nat × List String)) (impl : ImplOut) : List Strin
             [s!"observer-view-differs:{s}:view=[{joinWith "," (sortStrings view)}]:members=[{joinWith "," (sortStrings ms)}]"]
     | _ => []
 
+/-- Split a token list at every `sep` token. -/
+def splitToks (sep : String) (toks : List String) : List (List String) :=
+  let (cur, acc) := toks.foldl (fun (cur, acc) t => if t == sep then ([], acc ++ [cur]) else (cur ++ [t], acc)) ([], [])
+  (acc ++ [cur]).filter (· ≠ [])
+
+/-- All orders of a (short) list. -/
+def perms {α : Type} : List α → List (List α)
+  | [] => [[]]
+  | x :: xs => (perms xs).flatMap fun p => (List.range (p.length + 1)).map fun i => p.take i ++ [x] ++ p.drop i
+
+/-- `par a ;; b ;; …`: the sub-ops were issued concurrently.  The implementation reports only its tables at
+rest; the model takes the sub-ops in every order and answers with the tables of the first order that
+agrees with the implementation (of the order as written when none does: the line then differs). -/
+def stepPar (judge : St → Hub → Op → ImplOut → String) (st : St) (subs : List (List String)) (implToks : List String) :
+    St × String × String :=
+  match subs.mapM parseOp with
+  | none => (st, "bad-op", "na")
+  | some ops =>
+    let impl := parseImpl implToks
+    let implT := (implToks.find? (hasPrefix "T=")).getD ""
+    let runs := (perms ops).reverse.map fun p =>
+      p.foldl (fun (hs : Hub × Seen) op => ((SigModel.Hub.step hs.1 op).1, hs.2.observe hs.1 op)) (st.hub, st.seen)
+    let pick := match runs.find? (fun hs => showState hs.1 hs.2 == implT) with
+      | some hs => hs
+      | none => runs.headD (st.hub, st.seen)
+    let st' : St := { st with hub := pick.1, seen := pick.2 }
+    let v := if implToks.isEmpty then "na" else judge st' st.hub (.housekeeping 0) impl
+    ({ st' with lastDigest := if impl.hasDigest then impl.digest else st.lastDigest }, showState pick.1 pick.2, v)
+
 /-- One line: run the model, print its prediction, judge the implementation's output with `judge`. -/
 def stepWith (judge : St → Hub → Op → ImplOut → String) (st : St) (opToks implToks : List String) :
     St × String × String :=
+  if opToks.head? == some "par" then stepPar judge st (splitToks ";;" (opToks.drop 1)) implToks else
   match parseOp opToks with
   | none => (st, "bad-op", "na")
   | some op =>
     let seen := st.seen.observe st.hub op
     let (h', outs) := SigModel.Hub.step st.hub op
-    let modelLine := joinToks (showOuts outs ++ [showState h' seen])
+    let told := sortStrings ((goneVirtual st.hub h').map fun (r, v) => s!"B=told({enc r},s{v})")
+    let modelLine := joinToks (told ++ showOuts outs ++ [showState h' seen])
     let impl := parseImpl implToks
     let views := if implToks.isEmpty then st.views else
       -- connections that were closed lose their view; resumed sessions start a new one
@@ -473,6 +506,16 @@ def judgeC06 (st : St) (pre : Hub) (op : Op) (impl : ImplOut) : String :=
        | some p => if impl.deliveries.contains (p, "bye(session_resumed)") then "ok" else s!"violated:no-takeover-bye:c{p}"
        | none => "ok")
   | _ => "na"
+
+/-- C19: a virtual session lives only as long as the statement says, and the backend is told when it
+goes: (a) every virtual session that was in a room and is gone after the step was reported to the
+backend; (b) none that is gone is still in the implementation's session table. `st.hub` is the state
+after the step. -/
+def judgeC19Life (st : St) (pre : Hub) (impl : ImplOut) : List String :=
+  (goneVirtual pre st.hub).flatMap fun (r, v) =>
+    (if impl.told.contains s!"B=told({enc r},s{v})" then [] else [s!"backend-not-told:{enc r}:s{v}"]) ++
+    (if impl.hasDigest && (digestFind impl.digest "se").any (fun t => t[1]? == some s!"s{v}")
+      then [s!"virtual-session-outlives-removal:s{v}"] else [])
 
 /-- C19: add/remove requests of non-internal sessions have no effect at all. -/
 def judgeC19 (st : St) (pre : Hub) (op : Op) (impl : ImplOut) : String :=
